@@ -43,7 +43,7 @@ func TestVerifGrpcUnaryServer(t *testing.T) {
 					return nil, errFallback
 				}))
 			}
-			_, err := NewUnaryServerInterceptor(opts...)(context.Background(), "req", &grpc.UnaryServerInfo{FullMethod: "/svc/Method"},
+			_, err := NewUnaryServerInterceptor(opts...)(vCtx(), "req", &grpc.UnaryServerInfo{FullMethod: "/svc/Method"},
 				func(context.Context, interface{}) (interface{}, error) { return "resp", handler() })
 			return vOut{Err: err}
 		},
@@ -59,7 +59,7 @@ func TestVerifGrpcUnaryServer(t *testing.T) {
 			}
 			ic := NewUnaryServerInterceptor(opts...)
 			return func(h func() error) vOut {
-				_, err := ic(context.Background(), "req", &grpc.UnaryServerInfo{FullMethod: "/svc/Method"}, func(context.Context, interface{}) (interface{}, error) { return "resp", h() })
+				_, err := ic(vCtx(), "req", &grpc.UnaryServerInfo{FullMethod: "/svc/Method"}, func(context.Context, interface{}) (interface{}, error) { return "resp", h() })
 				return vOut{Err: err}
 			}
 		}, Rejected: rpcRejected})
@@ -104,7 +104,7 @@ func TestVerifGrpcUnaryClient(t *testing.T) {
 			if r.Fallback {
 				opts = append(opts, WithUnaryClientBlockFallback(func(context.Context, string, interface{}, *grpc.ClientConn, *base.BlockError) error { return errFallback }))
 			}
-			err := NewUnaryClientInterceptor(opts...)(context.Background(), "/svc/ClientMethod", "req", "reply", nil,
+			err := NewUnaryClientInterceptor(opts...)(vCtx(), "/svc/ClientMethod", "req", "reply", nil,
 				func(context.Context, string, interface{}, interface{}, *grpc.ClientConn, ...grpc.CallOption) error { return handler() })
 			return vOut{Err: err}
 		},
@@ -118,7 +118,7 @@ func TestVerifGrpcUnaryClient(t *testing.T) {
 			}
 			ic := NewUnaryClientInterceptor(opts...)
 			return func(h func() error) vOut {
-				return vOut{Err: ic(context.Background(), "/svc/ClientMethod", "req", "reply", nil,
+				return vOut{Err: ic(vCtx(), "/svc/ClientMethod", "req", "reply", nil,
 					func(context.Context, string, interface{}, interface{}, *grpc.ClientConn, ...grpc.CallOption) error { return h() })}
 			}
 		}, Rejected: rpcRejected})
@@ -136,7 +136,7 @@ func TestVerifGrpcStreamClient(t *testing.T) {
 					return nil, errFallback
 				}))
 			}
-			_, err := NewStreamClientInterceptor(opts...)(context.Background(), &grpc.StreamDesc{}, nil, "/svc/ClientStream",
+			_, err := NewStreamClientInterceptor(opts...)(vCtx(), &grpc.StreamDesc{}, nil, "/svc/ClientStream",
 				func(context.Context, *grpc.StreamDesc, *grpc.ClientConn, string, ...grpc.CallOption) (grpc.ClientStream, error) { return nil, handler() })
 			return vOut{Err: err}
 		},
@@ -152,7 +152,7 @@ func TestVerifGrpcStreamClient(t *testing.T) {
 			}
 			ic := NewStreamClientInterceptor(opts...)
 			return func(h func() error) vOut {
-				_, err := ic(context.Background(), &grpc.StreamDesc{}, nil, "/svc/ClientStream",
+				_, err := ic(vCtx(), &grpc.StreamDesc{}, nil, "/svc/ClientStream",
 					func(context.Context, *grpc.StreamDesc, *grpc.ClientConn, string, ...grpc.CallOption) (grpc.ClientStream, error) { return nil, h() })
 				return vOut{Err: err}
 			}
